@@ -43,6 +43,7 @@ func runC02(c *core.Ctx) {
 	if k.aliasB {
 		cfg.AliasB = "198.51.100.2"
 	}
+	cfg.NATA, cfg.NATB = k.natA, k.natB
 	d, err := rig.NewDuo(c, cfg)
 	if err != nil {
 		c.Failf("harness/setup", "%v", err)
@@ -71,6 +72,26 @@ func runC02(c *core.Ctx) {
 	for i := 0; i < extra && !c.Failed(); i++ {
 		d.S.StepFair(k.checkInterval)
 		sess.hook("connected")
+	}
+	// long phase: keepalives with some requests lost for more than 30 simulated seconds, so that the wire
+	// remembers transactions that are old and were never answered ("expired" by any implementation)
+	if c.T.Bias(1, 4, "longphase") && !c.Failed() {
+		c.Probe("long-keepalive-phase")
+		end := c.Now() + 33*time.Second
+		saved := d.S.Deltas
+		d.S.Deltas = []time.Duration{k.keepalive / 2}
+		d.S.DropW, d.S.DupW, d.S.ReorderW, d.S.AdvanceW = 12, 0, 0, 10
+		for n := 0; c.Now() < end && n < 4000 && !c.Failed(); n++ {
+			d.S.StepFaulty()
+			if n%7 == 0 {
+				sess.hook("long")
+			}
+		}
+		d.S.Deltas = saved
+		for i := 0; i < 10 && !c.Failed(); i++ {
+			d.S.StepFair(k.checkInterval)
+			inj.injectOne()
+		}
 	}
 	if k.restart && !c.Failed() {
 		inj.oldCreds["A"] = append(inj.oldCreds["A"], [2]string{d.A.Ufrag, d.A.Pwd})
